@@ -231,7 +231,9 @@ func TestVerif_C14Pipe(t *testing.T) {
 	// also a job of C13 (bad frames through the real socket loop: rejected, nothing of them
 	// stored, recording ended, processing resumes with the next frame, valid frames exact)
 	prop := vEnv("VERIF_PROP", "C14")
-	if prop != "C13" && prop != "C08" {
+	if prop != "C13" && prop != "C08" && prop != "C09" {
+		// (C09: a 'clear' is the camera reset of the frame socket - nothing is compared across it,
+		// whatever the frame before it was)
 		prop = "C14"
 	}
 	c := vStart(t, prop, "TestVerif_C14Pipe")
@@ -279,6 +281,16 @@ func TestVerif_C14Pipe(t *testing.T) {
 			}
 		}
 		frames := genStream(rng, cam, edge, o)
+		badBeforeClear := 0
+		if idx%6 == 5 && !stall {
+			// the last frame before every 'clear' is a rejected one (the camera restarts because of it)
+			for i := 1; i < len(frames); i++ {
+				if frames[i].Clear && !frames[i-1].Clear && !frames[i-1].Bad && i-1 > 0 {
+					frames[i-1].Pix[edge+1][edge+1], frames[i-1].Bad = 0, true
+					badBeforeClear++
+				}
+			}
+		}
 		stallAt := -1
 		if stall {
 			// a rejected frame just before: the camera is asked to restart, never does, keeps
@@ -485,6 +497,7 @@ func TestVerif_C14Pipe(t *testing.T) {
 			c.Count("connections", 1)
 			c.Count("frames_sent", int64(nFrames))
 			c.Count("clear_markers", int64(nClears))
+			c.Count("clears_right_after_a_rejected_frame", int64(badBeforeClear))
 			for _, f := range frames {
 				if f.Bad {
 					c.Count("bad_frames_in_streams", 1)
